@@ -12,8 +12,8 @@
            dispatch arms with their guards, and the loops of the kernels (incl. the three
            flavours of the same-form kernel `*_vec_op`: nalgebra `add_to`/`sub_to`/
            `component_div` assert equal shapes; `mul`/`mod` zip the two element iterators;
-           `pow`, the comparisons and the logic operators index both operands with
-           0..lhs.len()).
+           `pow`, the comparisons, the logic operators and string `+` index both operands with
+           0..lhs.len(), where `&&`/`||` do not read the rhs element when the lhs element decides).
    Part 3  [sop]: the operators on scalars (exact Z, exact Q, Flocq IEEE-754, bool, string).
    Part 4  decoders and the judge. *)
 From Coq Require Import List Arith ZArith Bool String.
